@@ -46,6 +46,9 @@ type vfC16Conn struct {
 	// ClearAfterBad: every bad frame is followed by a 'clear' marker (the camera daemon restarts the camera
 	// after a bad frame and announces it), then the sender pauses before the next good frame
 	ClearAfterBad bool `json:"clear_after_bad,omitempty"`
+	// Tail: the connection dies inside a frame (this many bytes of one more frame, of a value never completed,
+	// are sent before it closes; at most all but one), then the camera stays away for a moment
+	Tail int `json:"tail,omitempty"`
 }
 
 type vfC16Case struct {
@@ -105,6 +108,7 @@ func vfGenC16(t *rapid.T) vfC16Case {
 			}
 			cn.ClearAfterBad = rapid.IntRange(0, 2).Draw(t, "clear_after_bad") > 0
 		}
+		cn.Tail = rapid.SampledFrom([]int{0, 0, 6, 64, 1 << 20}).Draw(t, "tail")
 		for j := rapid.IntRange(0, 3).Draw(t, "npause"); j > 0; j-- {
 			cn.Pause = append(cn.Pause, rapid.IntRange(0, n-1).Draw(t, "pauseat"))
 		}
@@ -430,7 +434,22 @@ func vfC16Run(c vfC16Case, withReq bool) *vfC16Obs {
 			prevValue = int64(v)
 			prevGood = true
 		}
+		if cn.Tail > 0 && o.msg == "" {
+			pix := make([]uint16, cam.W*cam.H)
+			for p := range pix {
+				pix[p] = 999 // never the value of a complete frame (those start at 1001)
+			}
+			raw := vfRawFrame(cam, pix, uint32(60000+111*id), 0, uint32(id+1))
+			n := cn.Tail
+			if n > len(raw)-1 {
+				n = len(raw) - 1
+			}
+			conn.Write(raw[:n])
+		}
 		cerr := conn.Close()
+		if cn.Tail > 0 {
+			time.Sleep(500 * time.Microsecond) // the camera is away: requests meet what the dead connection left behind
+		}
 		atomic.StoreInt32(&inFlight, 0)
 		if prevValue != 0 {
 			atomic.StoreInt64(&completedValue, prevValue)
@@ -560,6 +579,6 @@ func vfRunC16(c vfC16Case) *kit.Result {
 
 func TestVF_C16(t *testing.T) {
 	kit.Drive(t, "C16", "TestVF_C16",
-		"generated schedules: 1-4 requester goroutines looping over scripts of {TakeSnapshot(-1 / last id), TakeTestRecording, CameraInfo, spin, yield, sleep} while 1-3 camera connections (reconnects, 'clear' markers, bad frames - also as the first frame of a connection, also followed by a 'clear' -, sender pauses at the lock-step barrier) feed uniform-valued frames of increasing value, GOMAXPROCS in {1,2,4,16}, ring capacity 1 and up; built with the race detector. Oracle: every returned snapshot is uniform (a whole frame), stays unchanged while later frames arrive (an exact copy, re-checked after the ring has wrapped), and is at least as new as the newest frame known to be completely processed when the request started; a TakeSnapshot(-1) that starts and ends while the sender waits at the barrier after a completely processed good frame must succeed; CameraInfo returns a description some camera sent; the pipeline neither stalls nor dies; continuous files equal the request-free twin and every motion file of the twin is present unchanged (extra files are 21-frame test recordings); zero race reports. Non-trivial: a snapshot was returned for a request that overlapped the processing of a frame (measured with atomics around the barrier).",
+		"generated schedules: 1-4 requester goroutines looping over scripts of {TakeSnapshot(-1 / last id), TakeTestRecording, CameraInfo, spin, yield, sleep} while 1-3 camera connections (reconnects, 'clear' markers, bad frames - also as the first frame of a connection, also followed by a 'clear' -, connections that die inside a frame, sender pauses at the lock-step barrier) feed uniform-valued frames of increasing value, GOMAXPROCS in {1,2,4,16}, ring capacity 1 and up; built with the race detector. Oracle: every returned snapshot is uniform (a whole frame), stays unchanged while later frames arrive (an exact copy, re-checked after the ring has wrapped), and is at least as new as the newest frame known to be completely processed when the request started; a TakeSnapshot(-1) that starts and ends while the sender waits at the barrier after a completely processed good frame must succeed; CameraInfo returns a description some camera sent; the pipeline neither stalls nor dies; continuous files equal the request-free twin and every motion file of the twin is present unchanged (extra files are 21-frame test recordings); zero race reports. Non-trivial: a snapshot was returned for a request that overlapped the processing of a frame (measured with atomics around the barrier).",
 		vfGenC16, vfRunC16)
 }
